@@ -41,7 +41,8 @@ state: `select(n)` (not on a symbol table), `start_selecting`, `cancel_selecting
 `clear_syllable_editor`, `set_editor_options`, `set_syllable_editor`, `set_conversion_engine`,
 `learn_phrase`, `unlearn_phrase`.
 **Not yet covered by a theorem** (`C01_target` is the statement without `Covered`):
-(1) `jump_to_{first,last,next,prev}_selection_point` while a candidate list is open;
+(1) `jump_to_{first,last,next,prev}_selection_point` while a *phrase* candidate list is open (on other lists
+and outside a list they return `Err` and are covered);
 (2) while a **symbol table** (`SymbolSelector`: `` ` ``, Ctrl+0/1, or Down on a symbol without special
 variants) is open: `select(n)` and the keys Down, Space, j, k, Left, Right, PageUp, PageDown, digits — their
 panic sites (`symsel-table-index`, `symsel-empty-category-name`) need a well-formedness hypothesis on the
